@@ -27,6 +27,27 @@
 
 #include "oomd/util/Util.h"
 
+#ifdef OOMD_VERIF
+// Verification trace points (add-only, compiled out unless OOMD_VERIF is
+// defined; a no-op unless the linking program defines the symbol). They sit
+// inside the critical sections of the async logger.
+extern "C" void oomd_verif_log_trace(
+    const char* tag,
+    unsigned long a,
+    unsigned long b,
+    unsigned long c) __attribute__((weak));
+#define OOMD_VERIF_LOG_TRACE(tag, a, b, c) \
+  do {                                     \
+    if (oomd_verif_log_trace) {            \
+      oomd_verif_log_trace(tag, a, b, c);  \
+    }                                      \
+  } while (0)
+#else
+#define OOMD_VERIF_LOG_TRACE(tag, a, b, c) \
+  do {                                     \
+  } while (0)
+#endif
+
 namespace Oomd {
 
 LogStream::LogStream() : sink_(Log::get()) {}
@@ -64,6 +85,7 @@ Log::~Log() {
   {
     std::lock_guard<std::mutex> lock(state_.lock);
     state_.ioThreadRunning = false;
+    OOMD_VERIF_LOG_TRACE("xstop", 0, 0, 0);
   }
   state_.cv.notify_all();
   if (io_thread_.joinable()) {
@@ -128,6 +150,7 @@ void Log::debugLog(std::string&& buf) {
 
   if (buf.size() + state_.curSize > state_.maxSize) {
     state_.numDiscarded++;
+    OOMD_VERIF_LOG_TRACE("drop", buf.size(), state_.curSize, 0);
     return;
   }
 
@@ -136,6 +159,7 @@ void Log::debugLog(std::string&& buf) {
   const size_t size = buf.size();
   q->emplace_back(std::move(buf));
   state_.curSize += size;
+  OOMD_VERIF_LOG_TRACE("enq", size, state_.curSize, 0);
   state_.cv.notify_one();
 }
 
@@ -163,6 +187,7 @@ void Log::ioThread(std::ostream& debug_sink) {
       batchSize = state_.curSize;
       state_.numDiscarded = 0;
       state_.ioTick++; // flips the last bit that getCurrentQueue uses
+      OOMD_VERIF_LOG_TRACE("swap", q->size(), numDiscarded, io_thread_running);
     }
 
     for (auto& buf : *q) {
@@ -177,12 +202,14 @@ void Log::ioThread(std::ostream& debug_sink) {
 
     // clear() doesn't shrink capacity, only invalidates contents
     q->clear();
+    OOMD_VERIF_LOG_TRACE("cleared", 0, 0, 0);
 
     // Only now do the written lines stop counting against maxSize, so that
     // queued plus in-flight lines never exceed it
     {
       std::lock_guard<std::mutex> lock(state_.lock);
       state_.curSize -= batchSize;
+      OOMD_VERIF_LOG_TRACE("release", batchSize, state_.curSize, 0);
     }
   }
 }
